@@ -219,7 +219,7 @@ impl<'a> RunCtx<'a> {
         let cfg = Config {
             cases: cases.min(u32::MAX as u64) as u32,
             failure_persistence: None,
-            max_shrink_iters: 20000,
+            max_shrink_iters: 6000,
             max_shrink_time: 0,
             max_global_rejects: 1 << 30,
             max_local_rejects: 1 << 30,
